@@ -89,6 +89,16 @@ fn segment_strategy() -> impl Strategy<Value = Vec<Op>> {
             v.push(if same { Op::PutAgain { k } } else { Op::Put { k, kind, len: len + 1, seed } });
             v
         }),
+        // the same for a key that is already held and acknowledged: its update fails on disk
+        1 => (0u8..NKEYS as u8, 0u8..4, 1u16..64, 0u8..4, 0usize..3, any::<bool>()).prop_map(|(k, kind, len, seed, acks, unblock)| {
+            let mut v = vec![Op::Put { k, kind, len, seed }, Op::Run, Op::Ack { i: 0 }, Op::Ack { i: 0 }, Op::Block { k }, Op::Put { k, kind, len: len + 1, seed }, Op::Run, Op::Run];
+            v.extend(std::iter::repeat(Op::Ack { i: 0 }).take(acks + 1));
+            if unblock {
+                v.push(Op::Unblock { k });
+            }
+            v.push(Op::Get { k });
+            v
+        }),
     ]
 }
 
@@ -143,6 +153,15 @@ pub fn check(case: &Case, ctx: &mut Ctx) {
     let mut last: Vec<Last> = vec![Last::Nothing; NKEYS];
     let mut tainted = vec![false; NKEYS];
     let mut blocked = vec![false; NKEYS];
+    // the harness itself destroyed the record file of a held key (a directory now sits there, which is
+    // how a failing disk is simulated hook-free; `fs::write` would have truncated the old version as
+    // well): until a write issued AFTER that has reported, "listed but unreadable" is the harness' doing
+    let mut destroyed_at: Vec<Option<u32>> = vec![None; NKEYS];
+    let (mut issued, mut reported) = (vec![0u32; NKEYS], vec![0u32; NKEYS]);
+    let mut held_key_fault = false;
+    // the store's own failed-write handler (RemoveFailedLocalRecord -> remove) ran while a NEWER write of
+    // the same key was still unreported: same mechanism as a remove with a write in flight
+    let mut failed_removal_over_newer_write = vec![false; NKEYS];
     // op index at which each buffered notification became visible
     let mut notif_seen_at: Vec<usize> = vec![];
     let (mut overwrite, mut remove_acked, mut ack_reordered, mut ack_delayed, mut disk_read) =
@@ -181,7 +200,6 @@ pub fn check(case: &Case, ctx: &mut Ctx) {
                 // an injected write fault is over once the path is free again and every earlier write of
                 // the key has reported (stored or failed+removed): a write ACCEPTED from here on is
                 // judged in full
-                let fault_over = tainted[ki] && !blocked[ki] && unacked[ki] == 0;
                 if last[ki] != Last::Nothing {
                     overwrite = true;
                 }
@@ -195,6 +213,10 @@ pub fn check(case: &Case, ctx: &mut Ctx) {
                     .map(|s| s.verif_cache_keys().contains(&keys[ki]))
                     .unwrap_or(false)
                     && sim.get_local(&keys[ki]).map(|r| r.value == v).unwrap_or(false);
+                // (when the harness itself destroyed the file of a held key, only a put that really writes
+                // ends the fault: a put answered from the cache leaves the file missing)
+                let destroyed_pending = destroyed_at[ki].map(|mark| reported[ki] <= mark).unwrap_or(false);
+                let fault_over = tainted[ki] && !blocked[ki] && unacked[ki] == 0 && (!destroyed_pending || !cached_same);
                 let listed_before: Vec<usize> = {
                     let l = sim.list();
                     (0..NKEYS).filter(|i| l.contains_key(&NetworkAddress::from_record_key(&keys[*i]))).collect()
@@ -207,6 +229,7 @@ pub fn check(case: &Case, ctx: &mut Ctx) {
                         }
                         if !cached_same {
                             unacked[ki] += 1;
+                            issued[ki] += 1;
                         }
                         removed_inflight[ki] = false;
                         last[ki] = Last::PutOk(v);
@@ -298,6 +321,10 @@ pub fn check(case: &Case, ctx: &mut Ctx) {
                     }
                     if let Some(ki) = sim.notifications.get(j).and_then(notif_key).and_then(|k| keys.iter().position(|x| *x == k)) {
                         unacked[ki] -= 1;
+                        reported[ki] += 1;
+                        if matches!(sim.notifications.get(j), Some(LocalSwarmCmd::RemoveFailedLocalRecord { .. })) && unacked[ki] > 0 {
+                            failed_removal_over_newer_write[ki] = true;
+                        }
                     }
                     sim.deliver_notification(j);
                 }
@@ -308,6 +335,12 @@ pub fn check(case: &Case, ctx: &mut Ctx) {
                 if !p.exists() && std::fs::create_dir(&p).is_ok() {
                     blocked[ki] = true;
                     tainted[ki] = true;
+                } else if p.is_file() && sim.has_key(&keys[ki]) && unacked[ki] == 0 && std::fs::remove_file(&p).is_ok() && std::fs::create_dir(&p).is_ok() {
+                    // a held, acknowledged record: its next update fails on disk
+                    blocked[ki] = true;
+                    tainted[ki] = true;
+                    destroyed_at[ki] = Some(issued[ki]);
+                    held_key_fault = true;
                 }
             }
             Op::Unblock { k } => {
@@ -348,6 +381,13 @@ pub fn check(case: &Case, ctx: &mut Ctx) {
                 tainted[ki] = true;
             }
         }
+        if let Some(ki) = sim.notifications.get(i).and_then(notif_key).and_then(|k| keys.iter().position(|x| *x == k)) {
+            reported[ki] += 1;
+            unacked[ki] -= 1;
+            if matches!(sim.notifications.get(i), Some(LocalSwarmCmd::RemoveFailedLocalRecord { .. })) && unacked[ki] > 0 {
+                failed_removal_over_newer_write[ki] = true;
+            }
+        }
         sim.deliver_notification(i);
     }
 
@@ -365,6 +405,20 @@ pub fn check(case: &Case, ctx: &mut Ctx) {
             }
         }
         if tainted[ki] {
+            // Whatever an injected write fault did to the key, the settled store must be consistent about
+            // it: either the key is held (listed and readable) or it is gone (neither). Exempt only while
+            // the harness' own destruction of the file is the cause (no later write has reported yet).
+            let harness_did_it = destroyed_at[ki].map(|mark| reported[ki] <= mark).unwrap_or(false);
+            if (has || in_list.is_some()) && got.is_none() && !harness_did_it {
+                let sig = if removed_inflight[ki] {
+                    "removed_while_write_in_flight_relisted_without_file"
+                } else if failed_removal_over_newer_write[ki] {
+                    "failed_write_cleanup_over_newer_write_relisted_without_file"
+                } else {
+                    "settled_listed_key_unreadable"
+                };
+                ctx.fail(sig, format!("key {ki}: listed after settling (has_key={has}, in list={}) but a read returns nothing; its last write failed on disk (injected fault) and the failure was reported", in_list.is_some()));
+            }
             continue;
         }
         match &last[ki] {
@@ -424,6 +478,7 @@ pub fn check(case: &Case, ctx: &mut Ctx) {
     ctx.label_if(disk_read, "cache_miss_disk_read");
     ctx.label_if(tainted.iter().any(|t| *t), "write_fault_injected");
     ctx.label_if(fault_resolved, "write_after_resolved_fault");
+    ctx.label_if(held_key_fault, "write_fault_on_held_key");
     ctx.label_if(put_again, "same_value_handed_in_again");
     ctx.label_if(evictions > 0, "record_pruned_at_capacity");
     ctx.label_if(refusals_at_capacity > 0, "put_refused_at_capacity");
@@ -444,5 +499,6 @@ pub fn run(cfg: RunCfg) {
         "non-trivial: (overwrite or remove of a listed key) and (an ack delivered out of issue order or delayed past a later op); distinct by whole history",
         case_strategy, check
     );
+    vh_core::fuzz_section!(rep, "history", case_strategy, check, "sec_store", "store", 6_000, 240, 8);
     rep.finish();
 }
